@@ -213,6 +213,9 @@ def check_envelopes(ck, rule, prog, builders):
     # strings, and None (= taken from the configuration, itself float or integer)
     reps = {"v1": [(1.0, 2.0), (1, 2.0), ("1.0", 2.0), (None, 1.0), (None, 1)],
             "v2": [(2.0, 2.0), (2, 2.0), ("2.0", 2.0), (None, 2.0), (None, 2)]}
+    if ck.tier == "thorough":
+        reps["v1"] += [("1", 2.0), (1.0, 1.0), (1.0, 1), (None, "1.0"), (0, 1.0), (0.0, 1), ("", 1.0)]
+        reps["v2"] += [("2", 1.0), (2.0, 1.0), (2, 1), (None, "2.0"), (0, 2.0), (0.0, 2), ("", 2.0)]
     n = 0
     for b in builders:
         for region in ("v1", "v2"):
@@ -220,21 +223,29 @@ def check_envelopes(ck, rule, prog, builders):
                 if b in ("request", "notify"):
                     cases = [("params", shape.Sym("params", truthy=True)), ("noparams", shape.K(None)),
                              ("noparams", shape.L([]))]
+                    if ck.tier == "thorough":
+                        cases += [("noparams", shape.D({})), ("noparams", shape.K(())),
+                                  ("params", shape.L([shape.K(None)])), ("params", shape.L([shape.K(0)])),
+                                  ("params", shape.D({"a": shape.K(None)})), ("params", shape.L([shape.L([])]))]
                     for (ptag, pval) in cases:
                         fi, res = eval_payload(prog, b, rep, {"method": shape.Sym("method", truthy=True, pytype=str),
                                                               "params": pval})
                         want = spec.ENVELOPES[(b, region, ptag)]
                         for (_tr, out) in res:
                             n += 1
-                            _cmp(ck, rule, fi, "%s[version=%r,%s]" % (b, rep, ptag), out, want, region, b)
+                            _cmp(ck, rule, fi, "%s[version=%r,%s%s]" % (b, rep, ptag, "" if isinstance(pval, shape.Sym) or (isinstance(pval, shape.K) and pval.v is None) else " %r" % (pval,)),
+                                 out, want, region, b, given=pval)
                 elif b == "response":
                     fi, res = eval_payload(prog, b, rep, {"result": shape.Sym("result")})
                     for (_tr, out) in res:
                         n += 1
                         _cmp(ck, rule, fi, "response[version=%r]" % (rep,), out, spec.ENVELOPES[("response", region)], region, b)
                 elif b == "error":
-                    for (dtag, dval) in (("data=None", shape.K(None)), ("data", shape.Sym("data", truthy=True)),
-                                         ("data falsy", shape.K(0))):
+                    dcases = [("data=None", shape.K(None)), ("data", shape.Sym("data", truthy=True)), ("data falsy", shape.K(0))]
+                    if ck.tier == "thorough":
+                        dcases += [("data falsy ''", shape.K("")), ("data falsy []", shape.L([])), ("data falsy {}", shape.D({})),
+                                   ("data falsy False", shape.K(False)), ("data falsy 0.0", shape.K(0.0))]
+                    for (dtag, dval) in dcases:
                         fi, res = eval_payload(prog, b, rep, {"code": shape.Sym("code", truthy=True, pytype=int),
                                                               "message": shape.Sym("message", truthy=True, pytype=str),
                                                               "data": dval})
@@ -245,7 +256,7 @@ def check_envelopes(ck, rule, prog, builders):
     return n
 
 
-def _cmp(ck, rule, fi, label, out, want, region, builder, dtag=None):
+def _cmp(ck, rule, fi, label, out, want, region, builder, dtag=None, given=None):
     where = "jsonrpc.Payload." + label
     if out[0] != "return" or not isinstance(out[1], shape.D):
         ck.bad(rule, where, "builder does not return a dictionary: %r" % (out,), q.loc(fi, fi.node))
@@ -292,9 +303,9 @@ def _cmp(ck, rule, fi, label, out, want, region, builder, dtag=None):
         if "params" in want and "params" in d:
             pv = d["params"]
             if "noparams" in label:
-                if not (isinstance(pv, shape.L) and not pv.elts):
-                    problems.append("empty params must be emitted as []: %r" % (pv,))
-            elif not (isinstance(pv, shape.Sym) and pv.label == "params"):
+                if not ((isinstance(pv, shape.L) and not pv.elts) or (given is not None and pv is given)):
+                    problems.append("empty params must be emitted as [] (or as the empty container given): %r" % (pv,))
+            elif not ((isinstance(pv, shape.Sym) and pv.label == "params") or (given is not None and pv is given)):
                 problems.append("\"params\" is %r, not the given params" % (pv,))
         if builder == "request":
             i = d.get("id")
@@ -575,6 +586,14 @@ def check_config_forwarding(ck, rule):
     return n
 
 
+def h_try(fi, handler_node):
+    """the ast.Try statement a handler node belongs to"""
+    for t in ast.walk(fi.node):
+        if isinstance(t, ast.Try) and any(h is handler_node.ast for h in t.handlers):
+            return t
+    raise AnalysisError("handler without try")
+
+
 def check_execute_outcome(ck, rule):
     """FutureResult.execute invokes the task exactly once as method(*args, **kwargs), stores the very object it returned
     with set(...), stores the very exception it raised with raise_exception(...) and re-raises it (shared by C09.3 / C16.6)."""
@@ -607,6 +626,22 @@ def check_execute_outcome(ck, rule):
     rexc = [(n, c) for n in g.live_nodes() for c in node_calls(n) if dump(c.func) == "self._done_event.raise_exception"]
     ck.require(len(sets) == 1 and len(rexc) == 1, rule, "%s: outcome stored on both branches" % q.fn(fex), "set(result) / raise_exception(ex)",
                "execute does not store the outcome on both the normal and the exceptional branch", q.loc(fex, fex.node))
+    # whatever way the call ends (normally, or with an exception the handler catches), no exit of execute is reachable
+    # without the outcome having been stored: nothing that may raise stands between the end of the call and the store
+    from vlib.flow import reachable_avoiding
+    stored = set(n.id for (n, _c) in sets + rexc)
+    for (mn, _mc) in mcalls:
+        starts = [("the call returned", b) for (b, l) in g.succ[mn.id] if l != "exc"]
+        for h in g.live_nodes():
+            if h.kind == "handler" and q.try_body_contains(h_try(fex, h), mn.ast):
+                starts.append(("`except %s`" % (dump(h.ast.type) if h.ast.type is not None else ""), h.id))
+        for (what, b) in starts:
+            reach = reachable_avoiding(g, b, stored)
+            leaks = [x for x in (g.return_exit.id, g.raise_exit.id) if x in reach and b not in stored]
+            ck.require(not leaks, rule, "%s: outcome stored on every path after %s" % (q.fn(fex), what), "no exit before set() / raise_exception()",
+                       "after %s, execute can leave (%s) before the outcome is stored - something that may raise precedes the store: the future "
+                       "is never completed (done() stays False, result() times out) and the task's own outcome is lost"
+                       % (what, "exceptionally" if g.raise_exit.id in leaks else "normally"), q.loc(fex, g.nodes[b]))
     for (n, c) in sets:
         t = prov.origin(g, n, c.args[0]) if c.args else None
         okk = t is not None and t[0] == "call" and t[1] == ("param", "method")
